@@ -502,6 +502,16 @@ func (txmp *TxMempool) addNewTransaction(wtx *WrappedTx, checkTxRes *abci.Respon
 		}
 	}
 
+	// The transaction may already be in the pool: the cache can evict a key
+	// while the transaction itself is still waiting here.
+	if _, ok := txmp.txByKey[wtx.tx.Key()]; ok {
+		txmp.logger.Debug(
+			"transaction already in the mempool, not adding it again",
+			"tx", fmt.Sprintf("%X", wtx.tx.Hash()),
+		)
+		return
+	}
+
 	// At this point the application has ruled the transaction valid, but the
 	// mempool might be full. If so, find the lowest-priority items with lower
 	// priority than the application assigned to this new one, and evict as many
